@@ -235,7 +235,12 @@ fn flatten_case(src: &mut Src, ctx: &mut Ctx) -> Result<(), String> {
             let angle = if pl.o.rot == 0 && pl.none_angle { None } else { Some(pl.o.angle()) };
             layout.insts.push(raw::Instance { inst_name: format!("i{}", k), cell: ptrs[*t].clone(), loc: pt(pl.loc), reflect_vert: pl.o.refl, angle });
         }
-        ptrs.push(raw::utils::Ptr::new(raw::Cell::from(layout)));
+        let mut cell = raw::Cell::from(layout);
+        // a cell may have an abstract view beside its layout: flattening is about the layout alone
+        if (i + c.shapes.len() + c.insts.len()) % 3 == 0 {
+            cell.abs = Some(raw::Abstract::new(format!("c{}", i), raw::Polygon { points: vec![pt((0, 0)), pt((10, 0)), pt((10, 10)), pt((0, 10))] }));
+        }
+        ptrs.push(raw::utils::Ptr::new(cell));
     }
     let top = cells.len() - 1;
     let mut want = vec![];
@@ -392,8 +397,14 @@ fn run(run: &mut Run) {
         Tier::Quick => {}
     }
     run.explore("random-chains", run.tier.pick(400_000, 4_000_000), 40, &random_chain_case);
+    // the same, each case in a thread of its own (per-thread state of the code starts from scratch)
+    run.explore_fresh("random-chains", run.tier.pick(3_000, 40_000), 40, &random_chain_case);
     run.explore("flatten", run.tier.pick(250_000, 3_000_000), 400, &flatten_case);
+    // the same, each case in a thread of its own (per-thread state of the code starts from scratch)
+    run.explore_fresh("flatten", run.tier.pick(3_000, 40_000), 400, &flatten_case);
     run.explore("general-angles", run.tier.pick(500_000, 6_000_000), 60, &general_case);
+    // the same, each case in a thread of its own (per-thread state of the code starts from scratch)
+    run.explore_fresh("general-angles", run.tier.pick(3_000, 40_000), 60, &general_case);
     run.explore("general-angles-flatten", run.tier.pick(100_000, 1_000_000), 60, &general_flatten_case);
 }
 fn case(sub: &str) -> Option<Box<CaseFn<'static>>> {
